@@ -174,6 +174,8 @@ def run_laws(prog: Program, rep: Report, thorough: bool = False) -> None:
                 ob('C08-L8 add_ agrees with add', f"add_({a},{b})", l.cls == r.cls, f"add = {l}, add_ = {r}")
             fam = sum_family(S)
             ob('C08-L8 sum family', f"sum belongs to the family of add", fam[0], fam[1])
+            tot = sum_total_on_empty(S)
+            ob('C08-L8 sum family', 'sum of an empty dimension is defined (the semiring zero)', tot[0], tot[1])
         except Unsupported as u:
             rep.error(f"C08: {where}: {u}")
     rep.analysed['law_instances'] = n_instances
@@ -214,6 +216,33 @@ def sum_family(S: Sem) -> Tuple[bool, str]:
         names = {callee_last(n) for n in own_nodes(f.node) if isinstance(n, ast.Call)}
     ok = bool(names & SUM_FAMILY[prim])
     return ok, f"add uses `{prim}`; sum is built from {sorted(x for x in names if x and x not in ('staticmethod', 'torch'))}; expected one of {sorted(SUM_FAMILY[prim])}"
+
+
+PARTIAL_ON_EMPTY = {'max', 'min', 'amax', 'amin', 'argmax', 'argmin'}       # torch reductions that raise on a zero-size dimension
+
+
+def sum_total_on_empty(S: Sem) -> Tuple[bool, str]:
+    """The n-ary sum of zero elements is the semiring zero: a reduction without an identity (torch.max over a dimension) must be
+    guarded by a test of the dimension's size."""
+    alias = S.prog.class_attr_alias(S.ci, 'sum')
+    if alias is not None:
+        names = {n.attr for n in ast.walk(alias) if isinstance(n, ast.Attribute)} | {n.id for n in ast.walk(alias) if isinstance(n, ast.Name)}
+        bad = names & PARTIAL_ON_EMPTY
+        return not bad, f"sum = {ast.unparse(alias)}" + (f": `{sorted(bad)[0]}` raises on an empty dimension" if bad else '')
+    f = S.method('sum')
+    from ..cfg import cfg_of
+    from ..guards import collect_atoms
+    cfg = cfg_of(f)
+    partial = [n for n, nd in cfg.nodes.items() if nd.stmt is not None and nd.kind in ('stmt', 'return')
+               and any(isinstance(x, ast.Call) and callee_last(x) in PARTIAL_ON_EMPTY for x in ast.walk(nd.stmt))]
+    if not partial:
+        return True, 'every reduction used has an identity (total on an empty dimension)'
+    guards = [n for n, nd in cfg.nodes.items() if nd.kind == 'test' and any(isinstance(a, ast.Compare) and ('.shape[' in ast.unparse(a) or '.size(' in ast.unparse(a) or 'numel' in ast.unparse(a))
+                                                                             for a in collect_atoms(nd.expr).values())]
+    dom = cfg.dominators()
+    ok = all(any(g in dom.get(p_, set()) for g in guards) for p_ in partial)
+    return ok, ('the reduction without identity is reached only after a test of the dimension size' if ok else
+                f"`{callee_last([x for x in ast.walk(cfg.nodes[partial[0]].stmt) if isinstance(x, ast.Call) and callee_last(x) in PARTIAL_ON_EMPTY][0])}` over a dimension raises when the dimension is empty; the sum of no elements is the semiring zero")
 
 
 def check_star_at_one(prog: Program, rep: Report, rule: str) -> None:
